@@ -637,6 +637,16 @@ func (c *FnCtx) evalCall(env *SpecEnv, e *Expr) (Val, error) {
 			return mathInt(args[0].Cap()), nil
 		}
 		return Val{}, fmt.Errorf("cap of non-slice")
+	case "float_lt":
+		// float_lt(x, y): the (uninterpreted) order the generator uses for x < y on floats
+		if err := evalArgs(); err != nil {
+			return Val{}, err
+		}
+		if len(args) != 2 {
+			return Val{}, fmt.Errorf("float_lt takes two arguments")
+		}
+		c.declareFun("float_lt", []string{"Int", "Int"}, "Bool")
+		return boolVal("(float_lt " + args[0].S + " " + args[1].S + ")"), nil
 	case "min", "max":
 		if err := evalArgs(); err != nil {
 			return Val{}, err
